@@ -27,7 +27,9 @@ EXPLANATION = (
     "follow the documented semantics (header=None keeps the first row, sheet_name=None returns a dict of all sheets, 0 the first): "
     "items must come out in file order converted to the declared type. A client DataReader (as in the documentation) drives the "
     "whole pipeline. "
-    "Files that are read, edited and read again by a new reader give their present content.")
+    "Files that are read, edited and read again by a new reader give their present content."
+    " Definitions that leave name / time letter / solver to the definition's own defaults, near misses of the reserved name 'sysenv', workbooks whose active sheet is not the first one, and two parameter readers alive at once are part of the cases."
+)
 TECHNIQUE = "static analysis: abstract interpretation of the assembly code over enumerated definitions and abstract file contents; built heap compared with the definitions"
 
 CLIENT = '''
